@@ -100,7 +100,11 @@ ExtendV(a, used) ==        \* argument: same-class object holding Len(a) values
   Step([op |-> "extend", n |-> Len(a)], xs \o a, NoneRes, used)
 DoExtend(k) == ExtendV(Fresh(k), k)
 
-ExtendWrong == Failed([op |-> "extend_wrong"], "Any")
+\* extend() by something that is not an object of the receiver's class: an object of another class holding values, an
+\* EMPTY object of another class (nothing to iterate over - the class still differs), a Python list that contains an
+\* object of another class after a good one.  All must raise and leave the receiver unchanged.
+WrongArgs == {"object", "empty-object", "list-mixed"}
+ExtendWrong(w) == Failed([op |-> "extend_wrong", what |-> w], "Any")
 
 InsertV(i, kind, a, used) ==
   LET call == [op |-> "insert", i |-> i, kind |-> kind] IN
@@ -143,7 +147,7 @@ Next ==
   \/ CopyCtor
   \/ \E kind \in ArgKinds : DoAppend(kind)
   \/ \E k \in ExtK : DoExtend(k)
-  \/ ExtendWrong
+  \/ \E w \in WrongArgs : ExtendWrong(w)
   \/ \E i \in Idx : \E kind \in ArgKinds : DoInsert(i, kind)
   \/ \E i \in Idx : DoPop(i)
   \/ PopDefault
